@@ -19,7 +19,7 @@ STUBS = []
 ASSUMPTIONS = ['an enumeration starts (takes its snapshot) at its first step', 'facts are ground integers']
 OUTSIDE = ['schedules longer than L', 'more than one suspended enumeration of each kind', 'more than N initial facts']
 BOUNDS = {'quick': 'N=2 initial facts, schedules of L=4 actions (6 action kinds, symbolic constants), partitioned on the first two actions',
-          'thorough': 'N=3 initial facts, L=5, partitioned on the first three actions'}
+          'thorough': 'N=2 with L=5 and N=3 with L=4, partitioned on the first two actions'}
 EXPLANATION = ('CrossHair executes the real query/retract generators and assert/retract builtins under a symbolic schedule that '
                'interleaves steps of two suspended enumerations with modifications of the same predicate; each observation is compared '
                'with a snapshot (logical update view) model on every path; CONFIRMED = path tree exhausted')
@@ -162,16 +162,14 @@ def make_body(n, length, info):
 
 def units(tier, seed):
     us = []
-    if tier == 'quick':
-        n, length, depth = 2, 4, 2
-    else:
-        n, length, depth = 3, 5, 3
     import itertools
-    for combo in itertools.product(range(6), repeat=depth):
-        fx = {'a%d' % i: a for i, a in enumerate(combo)}
-        us.append(dict(id='a.' + '-'.join(ACTIONS[a] for a in combo), n=n, length=length, fixed=fx, ob='C14.a',
-                       timeout=300 if tier == 'quick' else 1500, weight=40,
-                       bounds='%d initial facts max, schedule length %d starting with %s' % (n, length, [ACTIONS[a] for a in combo])))
+    configs = [(2, 4, 2, 'a')] if tier == 'quick' else [(2, 5, 2, 'a5'), (3, 4, 2, 'a')]
+    for n, length, depth, tag in configs:
+        for combo in itertools.product(range(6), repeat=depth):
+            fx = {'a%d' % i: a for i, a in enumerate(combo)}
+            us.append(dict(id=tag + '.' + '-'.join(ACTIONS[a] for a in combo), n=n, length=length, fixed=fx, ob='C14.a',
+                           timeout=300 if tier == 'quick' else 900, weight=40,
+                           bounds='%d initial facts max, schedule length %d starting with %s' % (n, length, [ACTIONS[a] for a in combo])))
     if tier == 'quick':
         # interleavings of the two enumerations over THREE initial facts (index shifts under in-place removal need a third fact)
         for combo in ((0, 1), (1, 0), (1, 1), (0, 0)):
